@@ -1,20 +1,25 @@
-import PdshVerif.Dsh.TimedInv
+import PdshVerif.Dsh.TimedNoHang
 import PdshVerif.Dsh.FanLive
 
 /-! # Timed LTS: with both timeouts set, virtual time is bounded (potential argument) -/
 namespace PdshVerif.Dsh.Timed
 open PdshVerif.Dsh
 
-/-- seconds target `h` may still keep the run busy -/
-def rem (c : Cfg) (now : Nat) (h : Host) : Nat :=
+/-- seconds a connected target may keep the run busy: the command timeout plus one watchdog period, or, without
+    a command timeout, until the scripted end of its streams -/
+def readB (c : Cfg) (sc : Script) : Nat := if 0 < c.ut then c.ut + WDOG_POLL else lastT c sc
+
+/-- seconds target `h` may still keep the run busy (`R` = its `readB`) -/
+def rem (c : Cfg) (R : Nat) (now : Nat) (h : Host) : Nat :=
   match h.ph with
-  | .new => (c.ct + WDOG_POLL) + (c.ut + WDOG_POLL)
-  | .rcmd => (c.ct + WDOG_POLL) + (c.ut + WDOG_POLL)
-  | .connecting => (h.start + (c.ct + WDOG_POLL) - now) + (c.ut + WDOG_POLL)
-  | .reading => h.conn + (c.ut + WDOG_POLL) - now
+  | .new => (c.ct + WDOG_POLL) + R
+  | .rcmd => (c.ct + WDOG_POLL) + R
+  | .connecting => (h.start + (c.ct + WDOG_POLL) - now) + R
+  | .reading => h.conn + R - now
   | .finished => 0
 
-def potential (s : St) : Nat := ((List.range s.hs.length).map fun j => rem s.cfg s.now (s.host j)).sum
+def potential (s : St) : Nat :=
+  ((List.range s.hs.length).map fun j => rem s.cfg (readB s.cfg (s.script j)) s.now (s.host j)).sum
 
 theorem sum_range_le {n : Nat} {a b : Nat → Nat} (h : ∀ j, j < n → a j ≤ b j) :
     ((List.range n).map a).sum ≤ ((List.range n).map b).sum := by
@@ -46,10 +51,10 @@ theorem sum_range_const (n x : Nat) : ((List.range n).map fun _ => x).sum = n * 
   | succ k ih => rw [List.range_succ, List.map_append, List.sum_append, ih]; simp [Nat.succ_mul]
 
 /-- a step of the target itself never increases what it may still cost -/
-theorem rem_hostStep {c : Cfg} {sc : Script} {now wake : Nat} {h : Host} (hi : HostInv c now wake h) (lo : Local)
+theorem rem_hostStep {c : Cfg} {sc : Script} {now wake : Nat} {h : Host} (R : Nat) (hi : HostInv c now wake h) (lo : Local)
     (hpre : (lo = .connBegin → h.ph = .rcmd) ∧ (lo = .connEnd → h.ph = .connecting) ∧ (lo = .wake → h.ph = .reading) ∧
             (lo = .create → h.ph = .new)) :
-    rem c now (hostStep c sc now h lo) ≤ rem c now h := by
+    rem c R now (hostStep c sc now h lo) ≤ rem c R now h := by
   cases lo with
   | create =>
     have hp := hpre.2.2.2 rfl
@@ -67,10 +72,10 @@ theorem rem_hostStep {c : Cfg} {sc : Script} {now wake : Nat} {h : Host} (hi : H
       · let h1 : Host := { h with conn := now, ph := .reading }
         have hf := pollRound_frame now h1
         rcases pollRound_ph now h1 with hq | hq
-        · have : rem c now (h1.pollRound now) = now + (c.ut + WDOG_POLL) - now := by
+        · have : rem c R now (h1.pollRound now) = now + R - now := by
             simp only [rem, hq.1, hf.2.2.1, h1]
           rw [this]; simp [rem, hp]
-        · have : rem c now (h1.pollRound now) = 0 := by simp only [rem, hq.1]
+        · have : rem c R now (h1.pollRound now) = 0 := by simp only [rem, hq.1]
           rw [this]; omega
       · simp [rem, hp]
       · exact Nat.le_refl _
@@ -79,12 +84,12 @@ theorem rem_hostStep {c : Cfg} {sc : Script} {now wake : Nat} {h : Host} (hi : H
     have round : ∀ (g : Host → Host) (h1 : Host),
         ((g h1).start = h1.start ∧ (g h1).cbeg = h1.cbeg ∧ (g h1).conn = h1.conn ∧ (g h1).intr = h1.intr) →
         (((g h1).ph = h1.ph ∧ (g h1).res = h1.res) ∨ ((g h1).ph = .finished ∧ (g h1).res = .done)) →
-        h1.ph = .reading → h1.conn = h.conn → rem c now (g h1) ≤ rem c now h := by
+        h1.ph = .reading → h1.conn = h.conn → rem c R now (g h1) ≤ rem c R now h := by
       intro g h1 hf hq h1p h1c
       rcases hq with hq | hq
       · simp only [rem, hq.1, h1p, hf.2.2.1, h1c, hp]; exact Nat.le_refl _
       · simp only [rem, hq.1]; omega
-    have hcore : rem c now (h.wakeCore c now) ≤ rem c now h := by
+    have hcore : rem c R now (h.wakeCore c now) ≤ rem c R now h := by
       simp only [Host.wakeCore]
       split
       · split
@@ -93,7 +98,7 @@ theorem rem_hostStep {c : Cfg} {sc : Script} {now wake : Nat} {h : Host} (hi : H
       · split
         · exact round (Host.oneRound now) _ (oneRound_frame _ _) (oneRound_ph _ _) hp rfl
         · exact round (Host.pollRound now) _ (pollRound_frame _ _) (pollRound_ph _ _) hp rfl
-    have hself : ∀ x : Host, rem c now (x.selfTimeout c now) ≤ rem c now x := by
+    have hself : ∀ x : Host, rem c R now (x.selfTimeout c now) ≤ rem c R now x := by
       intro x; simp only [Host.selfTimeout]; split
       · simp [rem]
       · exact Nat.le_refl _
@@ -105,7 +110,7 @@ theorem rem_hostStep {c : Cfg} {sc : Script} {now wake : Nat} {h : Host} (hi : H
     · exact Nat.le_refl _
   | other => exact Nat.le_refl _
 
-theorem rem_tick_le (c : Cfg) (now : Nat) (h : Host) : rem c (now + 1) h ≤ rem c now h := by
+theorem rem_tick_le (c : Cfg) (R now : Nat) (h : Host) : rem c R (now + 1) h ≤ rem c R now h := by
   simp only [rem]; split <;> omega
 
 theorem dstep_fan_none_guard' {s : St} {l : Fan.Label} {f' : Fan.St} (hf : Fan.step s.fan l = some f')
@@ -158,11 +163,11 @@ theorem step_now {s s' : St} {l : Label} (h : step s l = some s') (hl : l ≠ .t
 theorem potential_dstep {s s' : St} {l : Label} (hi : TInv s) (h : step s l = some s') (hl : l ≠ .tick) :
     potential s' ≤ potential s := by
   have hpar := step_params h
-  simp only [potential, hpar.2.2, hpar.1, step_now h hl]
+  simp only [potential, hpar.2.2, hpar.1, step_now h hl, script_congr hpar.2.1]
   apply sum_range_le
   intro j hj
   rw [host_local' h hj]
-  exact rem_hostStep (hi.hosts j hj) _ (local_pre hi h hj)
+  exact rem_hostStep _ (hi.hosts j hj) _ (local_pre hi h hj)
 
 /-- when the clock can advance and dsh() has not returned, some target is blocked in connect or in xpoll,
     not interrupted (it is what the run is waiting for) -/
@@ -226,38 +231,48 @@ theorem waiting_for {s : St} (hi : TInv s) (hq : quiescent s = true) (hf : 0 < s
 
 /-- a second that passes is paid for by a target the run is waiting for -/
 theorem potential_tick {s s' : St} (hi : TInv s) (h : step s .tick = some s') (hf : 0 < s.fan.f) (hnf : ¬ Final s)
-    (hct : 0 < s.cfg.ct) (hut : 0 < s.cfg.ut) : potential s' + 1 ≤ potential s := by
+    (hct : 0 < s.cfg.ct)
+    (hread : ∀ k, k < s.hs.length → (s.host k).ph = .reading → (s.host k).intr = false →
+      s.now < (s.host k).conn + readB s.cfg (s.script k)) : potential s' + 1 ≤ potential s := by
   obtain ⟨hq, he⟩ := step_tick_facts h
-  have hlt : s.now < s.wake := by
-    have := quiescent_none hq (mem_cands_scan s)
-    simp only [dstep] at this
-    split at this
-    · simp at this
-    · omega
+  have hlt : s.now < s.wake := tick_lt_wake h
   obtain ⟨k, hk, hint, hph⟩ := waiting_for hi hq hf hnf
   have hho := hi.hosts k hk
   have : potential s' < potential s := by
     rw [he]; simp only [potential]
     apply sum_range_lt (k := k) _ hk
-    · show rem s.cfg (s.now + 1) (s.host k) < rem s.cfg s.now (s.host k)
+    · show rem s.cfg (readB s.cfg (s.script k)) (s.now + 1) (s.host k) <
+        rem s.cfg (readB s.cfg (s.script k)) s.now (s.host k)
       rcases hph with hph | hph
       · have := hho.connDl hph hint hct
         simp only [rem, hph]; omega
-      · have := hho.readDl hph hint hut
+      · have := hread k hk hph hint
         simp only [rem, hph]; omega
-    · intro j _; exact rem_tick_le _ _ _
+    · intro j _; exact rem_tick_le _ _ _ _
   omega
 
+/-- what a target may cost in all -/
+def budget (c : Cfg) (sc : Script) : Nat := (c.ct + WDOG_POLL) + readB c sc
+
+theorem range_map_getD {α : Type} (l : List α) (d : α) (g : α → Nat) :
+    (List.range l.length).map (fun j => g (l.getD j d)) = l.map g := by
+  apply List.ext_getElem
+  · simp
+  · intro i h1 h2
+    simp only [List.getElem_map, List.getElem_range]
+    have : i < l.length := by simpa using h1
+    simp [List.getD_eq_getElem?_getD, List.getElem?_eq_getElem this]
+
 theorem potential_init (v f c scripts) :
-    potential (init v f c scripts) = scripts.length * ((c.ct + WDOG_POLL) + (c.ut + WDOG_POLL)) := by
+    potential (init v f c scripts) = (scripts.map (budget c)).sum := by
   simp only [potential]
   have hl : (init v f c scripts).hs.length = scripts.length := by simp [init]
-  rw [hl, ← sum_range_const]
+  rw [hl, ← range_map_getD scripts defaultScript (budget c)]
   congr 1
   apply List.map_congr_left
   intro j hj
   have hj' : j < scripts.length := by simpa using hj
-  rw [host_init v f c scripts hj']; simp [rem, initHost, init]
+  rw [host_init v f c scripts hj']; simp [rem, initHost, init, budget, St.script]
 
 /-- nothing happens in the Fan component after dsh() has returned -/
 theorem fan_final_stuck {f : Fan.St} (hi : Fan.Inv f) (hfin : Fan.Final f) (l : Fan.Label) : Fan.step f l = none := by
@@ -275,12 +290,13 @@ theorem fan_final_stuck {f : Fan.St} (hi : Fan.Inv f) (hfin : Fan.Final f) (l : 
       rw [hp] at hdone
       cases a <;> cases hdone
 
-/-- TIMEOUTS BOUND THE RUN: with both timeouts set, until dsh() returns the virtual clock never exceeds
-    n · (connect_timeout + command_timeout + 2 · WDOG_POLL) -/
+/-- TIMEOUTS BOUND THE RUN: with the connect timeout set, and either the command timeout set or no target whose
+    streams hang after the connect, until dsh() returns the virtual clock never exceeds the sum over the targets
+    of (connect_timeout + WDOG_POLL) + (command_timeout + WDOG_POLL, resp. the scripted end of its streams) -/
 theorem time_bounded {v f c scripts} {ls : List Label} {s : St} (he : Exec (init v f c scripts) ls s) (hf : 0 < f)
-    (hct : 0 < c.ct) (hut : 0 < c.ut) :
+    (hct : 0 < c.ct) (hcov : 0 < c.ut ∨ ∀ j, j < scripts.length → NoHang c (scripts.getD j defaultScript)) :
     s.cfg = c ∧ s.fan.f = f ∧
-    (¬ Final s → s.now + potential s ≤ scripts.length * ((c.ct + WDOG_POLL) + (c.ut + WDOG_POLL))) := by
+    (¬ Final s → s.now + potential s ≤ (scripts.map (budget c)).sum) := by
   induction he with
   | nil =>
     refine ⟨rfl, by simp [init, Fan.init], fun _ => ?_⟩
@@ -289,6 +305,7 @@ theorem time_bounded {v f c scripts} {ls : List Label} {s : St} (he : Exec (init
     rename_i ls0 s1 l0 s2
     obtain ⟨hc, hff, hb⟩ := ih
     have hti := tinv_exec (tinv_init v f c scripts) he'
+    obtain ⟨_, hscr, hlen, hgi⟩ := ginv_exec he'
     have hpar := step_params hs
     have hproj := step_proj hs
     have hfan : s2.fan.f = f := by
@@ -308,8 +325,22 @@ theorem time_bounded {v f c scripts} {ls : List Label} {s : St} (he : Exec (init
     have hb1 := hb hnf1
     by_cases hl : l0 = .tick
     · subst hl
-      have := potential_tick hti hs (by rw [hff]; exact hf) hnf1 (by rw [hc]; exact hct) (by rw [hc]; exact hut)
-      obtain ⟨_, he2⟩ := step_tick_facts hs
+      obtain ⟨hq, he2⟩ := step_tick_facts hs
+      have hread : ∀ k, k < s1.hs.length → (s1.host k).ph = .reading → (s1.host k).intr = false →
+          s1.now < (s1.host k).conn + readB s1.cfg (s1.script k) := by
+        intro k hk hph hint
+        have hlt : s1.now < s1.wake := tick_lt_wake hs
+        by_cases hu : 0 < s1.cfg.ut
+        · have := (hti.hosts k hk).readDl hph hint hu
+          simp only [readB, hu, if_true]; omega
+        · have hk' : k < scripts.length := by rw [← hlen]; exact hk
+          have hnh : NoHang s1.cfg (s1.script k) := by
+            rcases hcov with h0 | hall
+            · rw [hc] at hu; exact absurd h0 hu
+            · rw [hc]; simp only [St.script, hscr]; exact hall k hk'
+          have := reading_waits hq hk (hgi k hk') hnh hph
+          simp only [readB, hu, if_false]; exact this
+      have := potential_tick hti hs (by rw [hff]; exact hf) hnf1 (by rw [hc]; exact hct) hread
       have hn : s2.now = s1.now + 1 := by rw [he2]
       omega
     · have := potential_dstep hti hs hl
